@@ -618,6 +618,41 @@ def rand_seq(kind, params, n, rng, sess):
             return
 
 
+# ============================================================================ wrapper views
+def wrapper_view_case(rng, sess):
+    """What a lock wrapper hands out must have been taken under its lock: items() is the content at the time of the call,
+    also when the caller looks at it only after other operations went through the wrapper."""
+    from clematis.engine.cache import LRUCache, ThreadSafeCache, ThreadSafeBytesCache
+    from clematis.engine.util.lru_bytes import LRUBytes
+
+    cap = rng.choice([1, 2, 3])
+    kind = rng.choice(["bytes", "lru"])
+    wrap = ThreadSafeBytesCache(LRUBytes(max_entries=cap, max_bytes=cap * 4)) if kind == "bytes" else ThreadSafeCache(LRUCache(max_entries=cap, ttl_s=0))
+
+    def put(k, v):
+        return wrap.put(k, v, 1) if kind == "bytes" else wrap.put(k, v)
+
+    ops = []
+    for j in range(rng.randint(1, cap + 1)):
+        ops.append(("put", f"k{j}", j))
+        put(f"k{j}", j)
+    view = wrap.items()
+    at_call = list(wrap.items())  # a second, immediately materialised view of the same content
+    later = [("put", f"n{j}", 100 + j) for j in range(rng.randint(1, cap + 1))]
+    for _, k, v in later:
+        put(k, v)
+    try:
+        seen_later = list(view)
+    except Exception as ex:
+        sess.violation("wrapper-view:raises-when-consumed-after-later-operations:" + type(ex).__name__, {"kind": kind, "cap": cap, "before": ops, "after": later}, repr(ex)[:120])
+        return
+    sess.evaluations += 1
+    sess.count("wrapper_views_checked")
+    if seen_later != at_call:
+        sess.violation("wrapper-view:items-evaluated-outside-the-lock", {"kind": kind, "cap": cap, "before": ops, "after": later},
+                       {"at_call": at_call, "consumed_later": seen_later})
+
+
 # ============================================================================ threads
 def threaded_history(kind, nthreads, nkeys, nops, cap, seed, sess, inject=True):
     from clematis.engine.cache import LRUCache, ThreadSafeCache, ThreadSafeBytesCache
@@ -883,6 +918,7 @@ def _work(args):
                 rand_seq(kind, params, 2000, rng, sess)
             for _ in range(300 if tier == "quick" else 5000):
                 merge_case(rng, sess)
+                wrapper_view_case(rng, sess)
         elif what == "threads":
             rng = random.Random(f"C15/t/{seed}/{payload}")
             for j in range(6 if tier == "quick" else 60):
@@ -913,6 +949,7 @@ def main(tier: str, seed: int):
     sess.require("yield_injections", 1000)
     sess.require("threaded_gets_with_value_checked", 500)
     sess.require("merges_checked", 500)
+    sess.require("wrapper_views_checked", 200)
     sess.require("threaded_ttl_histories", 3)
     sess.require("threaded_ttl_misses_judged", 50)
     sess.finish()
